@@ -15,37 +15,11 @@ var vScopes = [][]string{nil, {"d1"}, {"d2"}, {"d1", "d2"}}
 // paging with a limit and following continuations returns the same set with
 // nothing twice.
 func VerifC03History(h *verifh.H) {
-	hub := VerifNewHub(h)
-	dsn := []string{"d1", "d2"}
-	dss := map[string]*Dataset{}
-	for _, n := range dsn {
-		ds, err := hub.Dsm.CreateDataset(n, nil)
-		h.Assert(err == nil, "create dataset")
-		dss[n] = ds
-	}
-	g := newMGraph(dsn...)
-	ids := []string{"ns0:e1", "ns0:e2"}
-	targets := []string{"ns0:e2", "ns0:e3"}
+	hs := vNewHistory(h, "d1", "d2")
+	hub, g := hs.hub, hs.g
 	steps := h.Param("steps", 2)
 	for s := 0; s < steps; s++ {
-		name := dsn[0]
-		if s > 0 || h.Param("firstAny", 0) == 1 {
-			name = dsn[h.Choice("ds", 2)]
-		}
-		nb := 1
-		if h.Param("batch2", 0) == 1 {
-			nb = 1 + h.Choice("two", 2)
-		}
-		var batch []*mVersion
-		var ents []*Entity
-		for k := 0; k < nb; k++ {
-			v := drawVersion(h, ids, targets, false)
-			batch = append(batch, v)
-			ents = append(ents, mkEntity(v))
-		}
-		err := dss[name].StoreEntities(ents)
-		h.Assert(err == nil, "batch accepted")
-		g.write(name, batch)
+		hs.step(h, s, famRefs, h.Param("batch2", 0) == 1 && s == steps-1, h.Param("firstAny", 0) == 1)
 	}
 	starts := []string{"ns0:e1", "ns0:e2", "ns0:e3"}
 	preds := []string{"*", "ns0:p1", "ns0:p2"}
